@@ -5,6 +5,7 @@
    below say exactly what they mean. *)
 From Coq Require Import ZArith List Bool Permutation Sorted.
 From DV Require Import Model.PyPrims Model.C10Model Model.C10ModelExt Proofs.C10Proofs Proofs.C10Ext Proofs.C10ExtEx.
+From DV Require Import Model.C10NsPrims Gen.Namespace Proofs.C10Gen Proofs.C10GenStep.
 Import ListNotations.
 Open Scope Z_scope.
 
@@ -526,3 +527,182 @@ Theorem bit_length_spec : forall n : Z,
   /\ (0 <= n -> forall len, Z.of_nat (length (int_as_bitstring n len)) = Z.max len (Z.max 1 (bit_length n))).
 Proof. exact bit_length_spec_l. Qed.
 Print Assumptions bit_length_spec.
+
+From Coq Require Import String.
+
+(* ================= 9. translator tie =================
+   Gen/Namespace.v is regenerated on every run by py/dv/gen_namespace.py from the AST of the current
+   taxonmodel.py / nexusprocessing.py / bitprocessing.py (primitive semantics: Model/C10NsPrims.v, trusted).
+   Each generated function equals the corresponding function of the hand-written model on well-typed
+   arguments; `idx_nonneg n` = no accession index is negative (a clause of Inv). *)
+
+Theorem gen_add_taxon : forall (w : world) (t : tid),
+  py_add_taxon w (VTaxon t)
+  = match add_taxon (w_ns w) t with Ok n => Ok (set_ns w n, VNone) | Err e => Err e | OutOfFuel => OutOfFuel end.
+Proof. exact gen_add_taxon_l. Qed.
+Print Assumptions gen_add_taxon.
+
+Theorem gen_new_taxon : forall (w : world) (l : lbl),
+  py_new_taxon w (VLabel l)
+  = match new_taxon w l with Ok (w', t) => Ok (w', VTaxon t) | Err e => Err e | OutOfFuel => OutOfFuel end.
+Proof. exact gen_new_taxon_l. Qed.
+Print Assumptions gen_new_taxon.
+
+Theorem gen_new_taxa : forall (w : world) (ls : list lbl),
+  py_new_taxa w (VList (map VLabel ls))
+  = if negb (is_mut (w_ns w)) then Err TypeErr
+    else match new_taxa w ls [] with
+         | Ok (w', ts) => Ok (w', VList (map VTaxon ts)) | Err e => Err e | OutOfFuel => OutOfFuel
+         end.
+Proof. exact gen_new_taxa_l. Qed.
+Print Assumptions gen_new_taxa.
+
+Theorem gen_remove_taxon : forall (w : world) (t : tid),
+  py_remove_taxon w (VTaxon t)
+  = match remove_taxon (w_ns w) t with Ok n => Ok (set_ns w n, VNone) | Err e => Err e | OutOfFuel => OutOfFuel end.
+Proof. exact gen_remove_taxon_l. Qed.
+Print Assumptions gen_remove_taxon.
+
+Theorem gen_clear_sort_reverse : forall (w : world) (reverse : bool),
+  py_clear w = Ok (set_ns w (mkNs [] [] [] (count (w_ns w)) [] (is_mut (w_ns w)) (is_cs (w_ns w))), VNone)
+  /\ py_sort w VNone (VBool reverse)
+     = Ok (set_ns w (mkNs (C10Model.py_sort w reverse (taxa (w_ns w))) (acc (w_ns w)) (rev (w_ns w)) (count (w_ns w))
+                          (bm (w_ns w)) (is_mut (w_ns w)) (is_cs (w_ns w))), VNone)
+  /\ py_reverse w
+     = Ok (set_ns w (mkNs (List.rev (taxa (w_ns w))) (acc (w_ns w)) (rev (w_ns w)) (count (w_ns w))
+                          (bm (w_ns w)) (is_mut (w_ns w)) (is_cs (w_ns w))), VNone).
+Proof. intros w reverse. exact (conj (gen_clear_l w) (conj (gen_sort_l w reverse) (gen_reverse_l w))). Qed.
+Print Assumptions gen_clear_sort_reverse.
+
+Theorem gen_lookup_label :
+  forall (lower : lbl -> lbl) (w : world) (l : lbl) (cs : option bool) (first err : bool),
+  py__lookup_label lower w (VLabel l) (match cs with None => VNone | Some b => VBool b end) (VBool first) (VBool err)
+  = match lookup_all lower w l cs with
+    | [] => if err then Err LookupErr else Ok VNone
+    | t :: r => if first then Ok (VTaxon t) else Ok (VList (map VTaxon (t :: r)))
+    end.
+Proof. exact gen_lookup_label_l. Qed.
+Print Assumptions gen_lookup_label.
+
+Theorem gen_lookups : forall (lower : lbl -> lbl) (w : world) (l : lbl) (ls : list lbl) (cs : option bool) (first : bool),
+  let c := match cs with None => VNone | Some b => VBool b end in
+  py_findall lower w (VLabel l) c = Ok (VList (map VTaxon (lookup_all lower w l cs)))
+  /\ py_get_taxon lower w (VLabel l) c
+     = Ok (match lookup_first lower w l cs with Some t => VTaxon t | None => VNone end)
+  /\ py_has_taxon_label lower w (VLabel l) c
+     = Ok (VBool (match lookup_first lower w l cs with Some _ => true | None => false end))
+  /\ py_has_taxa_labels lower w (VList (map VLabel ls)) c
+     = Ok (VBool (forallb (fun l => match lookup_all lower w l cs with [] => false | _ => true end) ls))
+  /\ py_get_taxa lower w (VList (map VLabel ls)) c (VBool first)
+     = Ok (VList (map VTaxon (get_taxa lower w ls cs first []))).
+Proof.
+  intros lower w l ls cs first c.
+  exact (conj (gen_findall_l lower w l cs) (conj (gen_get_taxon_l lower w l cs)
+        (conj (gen_has_taxon_label_l lower w l cs) (conj (gen_has_taxa_labels_l lower w ls cs)
+        (gen_get_taxa_l lower w ls cs first))))).
+Qed.
+Print Assumptions gen_lookups.
+
+Theorem gen_require_taxon : forall (lower : lbl -> lbl) (w : world) (l : lbl) (cs : option bool),
+  py_require_taxon lower w (VLabel l) (match cs with None => VNone | Some b => VBool b end)
+  = match lookup_first lower w l cs with
+    | Some t => Ok (w, VTaxon t)
+    | None => if negb (is_mut (w_ns w)) then Err TypeErr
+              else match new_taxon w l with
+                   | Ok (w', t) => Ok (w', VTaxon t) | Err e => Err e | OutOfFuel => OutOfFuel end
+    end.
+Proof. exact gen_require_taxon_l. Qed.
+Print Assumptions gen_require_taxon.
+
+Theorem gen_remove_discard_label :
+  forall (lower : lbl -> lbl) (w : world) (l : lbl) (cs : option bool) (first : bool),
+  let c := match cs with None => VNone | Some b => VBool b end in
+  let removal := fun strict : bool =>
+    match lookup_all lower w l cs with
+    | [] => if strict then Err LookupErr else Ok (w, VNone)
+    | t :: r => match remove_each (w_ns w) (if first then [t] else t :: r) with
+                | Ok n => Ok (set_ns w n, VNone) | Err e => Err e | OutOfFuel => OutOfFuel end
+    end in
+  py_remove_taxon_label lower w (VLabel l) c (VBool first) = removal true
+  /\ py_discard_taxon_label lower w (VLabel l) c (VBool first) = removal false.
+Proof.
+  intros lower w l cs first c removal.
+  exact (conj (gen_remove_taxon_label_l lower w l cs first) (gen_discard_taxon_label_l lower w l cs first)).
+Qed.
+Print Assumptions gen_remove_discard_label.
+
+Theorem gen_bitmasks : forall (lower : lbl -> lbl) (w : world) (t : tid) (ts : list tid) (ls : list lbl)
+                              (cs : option bool) (first : bool),
+  (forall t i, alookup t (acc (w_ns w)) = Some i -> 0 <= i) -> 0 <= count (w_ns w) ->
+  py_all_taxa_bitmask w = Ok (VInt (all_taxa_bitmask (w_ns w)))
+  /\ py_taxon_bitmask w (VTaxon t)
+     = match taxon_bitmask (w_ns w) t with
+       | Ok (n, m) => Ok (set_ns w n, VInt m) | Err e => Err e | OutOfFuel => OutOfFuel end
+  /\ py_accession_index w (VTaxon t)
+     = match alookup t (acc (w_ns w)) with Some i => Ok (VInt i) | None => Err KeyErr end
+  /\ py_taxa_bitmask lower w (VKw [("taxa"%string, VList (map VTaxon ts))])
+     = match taxa_bitmask (w_ns w) ts 0 with
+       | Ok (n, m) => Ok (set_ns w n, VInt m) | Err e => Err e | OutOfFuel => OutOfFuel end
+  /\ py_taxa_bitmask lower w (VKw [("labels"%string, VList (map VLabel ls));
+                                    ("is_case_sensitive"%string, match cs with None => VNone | Some b => VBool b end);
+                                    ("first_match_only"%string, VBool first)])
+     = match taxa_bitmask (w_ns w) (get_taxa lower w ls cs first []) 0 with
+       | Ok (n, m) => Ok (set_ns w n, VInt m) | Err e => Err e | OutOfFuel => OutOfFuel end
+  /\ (forall lsv v, py_taxa_bitmask lower w (VKw [("labels"%string, lsv); ("is_rooted"%string, v)]) = Err TypeErr).
+Proof.
+  intros lower w t ts ls cs first Hn Hc.
+  exact (conj (gen_all_taxa_bitmask_l w Hc) (conj (gen_taxon_bitmask_l w t Hn) (conj (gen_accession_index_l w t)
+        (conj (gen_taxa_bitmask_taxa_l lower w ts Hn) (conj (gen_taxa_bitmask_labels_l lower w ls cs first Hn)
+        (gen_taxa_bitmask_unexpected_keyword_l lower w)))))).
+Qed.
+Print Assumptions gen_bitmasks.
+
+(* the generic fuel of the generated `while bitmask:` loop is the model's bits_fuel *)
+Theorem gen_bitmask_taxa_list : forall (w : world) (m idx : Z),
+  py_bitmask_taxa_list w (VInt m) (VInt idx)
+  = match bitmask_taxa_list (w_ns w) (bits_fuel m) m idx [] with
+    | Ok l => Ok (VList (map VTaxon l)) | Err e => Err e | OutOfFuel => OutOfFuel end.
+Proof. exact gen_bitmask_taxa_list_l. Qed.
+Print Assumptions gen_bitmask_taxa_list.
+
+Theorem gen_labels_and_newick : forall (w : world) (m : Z) (ps qu : pyval),
+  (forall t i, alookup t (acc (w_ns w)) = Some i -> 0 <= i) -> 0 <= count (w_ns w) ->
+  py_labels w = Ok (VList (map VLabel (map (label_of w) (taxa (w_ns w)))))
+  /\ py_bitmask_as_newick_string w (VInt m) ps qu
+     = if orb (Z.eqb m 0) (Z.eqb m (all_taxa_bitmask (w_ns w)))
+       then Ok (w, VOut (OGroup1 (map (label_of w) (taxa (w_ns w)))))
+       else match newick_groups w (w_ns w) m (taxa (w_ns w)) [] [] with
+            | Ok (n', (l, r)) => Ok (set_ns w n', VOut (OGroups l r))
+            | Err e => Err e | OutOfFuel => OutOfFuel
+            end.
+Proof.
+  intros w m ps qu Hn Hc. exact (conj (gen_labels_l w) (gen_bitmask_as_newick_string_l w m ps qu Hn Hc)).
+Qed.
+Print Assumptions gen_labels_and_newick.
+
+Theorem gen_bitprocessing : forall (w : world) (n len : Z), 0 <= n ->
+  (forall k, py_bit_length w (VInt k) = Ok (VInt (bit_length k)))
+  /\ py_bit_length w VNone = Ok (VInt 0)
+  /\ py_int_as_bitstring w (VInt n) (VInt len) VNone VNone (VBool false)
+     = Ok (VStr (map (fun b : bool => if b then C1 else C0) (int_as_bitstring n len)))
+  /\ py_int_as_bitstring w (VInt n) VNone VNone VNone (VBool false)
+     = Ok (VStr (map (fun b : bool => if b then C1 else C0) (int_as_bitstring n (bit_length n)))).
+Proof.
+  intros w n len H.
+  exact (conj (fun k => proj1 (gen_bit_length_l w k)) (conj (proj2 (gen_bit_length_l w n))
+        (gen_int_as_bitstring_l w n len H))).
+Qed.
+Print Assumptions gen_bitprocessing.
+
+(* the operation-level model assembled from generated functions only (gen_step, Proofs/C10GenStep.v)
+   is `step`; so every theorem above about step / run / run_world is a theorem about the generated code *)
+Theorem gen_step_eq : forall (lower : lbl -> lbl) (w : world) (o : op),
+  (forall t i, alookup t (acc (w_ns w)) = Some i -> 0 <= i) -> 0 <= count (w_ns w) ->
+  gen_step lower w o = step lower w o.
+Proof. exact gen_step_eq_l. Qed.
+Print Assumptions gen_step_eq.
+
+Theorem gen_run_eq : forall (lower : lbl -> lbl) (w : world) (ops : list op),
+  Inv (w_ns w) -> gen_run lower w ops = run lower w ops.
+Proof. exact gen_run_eq_l. Qed.
+Print Assumptions gen_run_eq.
